@@ -70,7 +70,7 @@ func famRelay(w *World) {
 			maxTO = time.Millisecond
 		}
 	}
-	tombs := uint64([]int{0, 0, 1, 4}[scn(4)])
+	tombs := uint64([]int{0, 0, 1, 1, 2, 4}[scn(6)])
 	verify := scnChance(1, 3)
 	t := w.buildRelayTopo(nc, ns, hops, w.connOpts, func(o *NodeOpts) {
 		o.RelayMaxTimeout = maxTO
